@@ -29,7 +29,8 @@ var layoutDecls = []string{
 	"counter-reset:c", "counter-increment:c 2", "counter-set:c 5", "counter-reset:list-item 3", "list-style:square inside", "list-style-type:lower-roman", "list-style-type:'-'", "list-style-type:symbols(cyclic 'a' 'b')", "list-style-image:url(x.png)", "quotes:'<' '>'",
 	"font-size:0", "font-size:30px", "font-size:2em", "font-size:50%", "font-size:1px", "font-family:Ahem", "font-family:weasyprint", "font-family:serif", "font:10px/1 Ahem", "font:bold italic 12px/2 serif", "font-weight:bold", "font-weight:bolder", "font-style:italic", "font-variant:small-caps", "font-stretch:condensed", "font-kerning:none", "font-feature-settings:'liga' 0",
 	"line-height:0", "line-height:1", "line-height:3", "line-height:50px", "line-height:normal", "text-align:center", "text-align:right", "text-align:justify", "text-align-last:center", "text-indent:20px", "text-indent:-10px", "text-indent:50%", "letter-spacing:3px", "letter-spacing:-1px", "word-spacing:5px", "white-space:nowrap", "white-space:pre", "white-space:pre-wrap", "white-space:pre-line", "word-break:break-all", "overflow-wrap:anywhere", "overflow-wrap:break-word", "hyphens:auto", "hyphens:none", "hyphenate-character:'~'", "hyphenate-limit-chars:3 1 1", "tab-size:4", "text-transform:uppercase", "text-transform:capitalize", "text-overflow:ellipsis", "block-ellipsis:auto", "max-lines:2", "continue:discard", "line-clamp:2",
-	"text-decoration:underline", "text-decoration:line-through overline", "text-decoration:underline wavy red", "direction:rtl", "unicode-bidi:bidi-override", "unicode-bidi:embed", "color:red", "color:transparent", "background:red", "background:url(x.png)", "background:linear-gradient(red, blue)", "background:radial-gradient(circle, red, blue 50%)", "background:repeating-linear-gradient(45deg, red, blue 10px)", "background-size:50% auto", "background-position:right 3px bottom", "background-repeat:space", "background-clip:content-box", "background-attachment:fixed", "outline:2px solid", "outline-offset:3px", "box-decoration-break:clone", "image-rendering:pixelated", "image-resolution:2dppx", "object-fit:cover", "object-position:10% 20%", "border-image:url(x.png) 3", "box-shadow:1px 1px",
+	"text-decoration:underline", "text-decoration:line-through overline", "text-decoration:underline wavy red", "direction:rtl", "unicode-bidi:bidi-override", "unicode-bidi:embed", "color:red", "color:transparent", "background:red", "background:url(x.png)", "background:linear-gradient(red, blue)", "background-repeat:space", "background-repeat:round", "background-repeat:repeat space", "background-repeat:no-repeat round", "background-size:40px 60px", "background-size:100% 100%", "background-size:cover", "background-size:auto 30%",
+	"background:linear-gradient(red, blue);background-repeat:repeat space;background-size:40px 60px;height:100px", "background:radial-gradient(red, blue) space;height:60px;width:60px;background-size:60px 60px", "background-image:repeating-linear-gradient(45deg, red, blue 10px);background-size:20px 20px;background-repeat:round space", "background:radial-gradient(circle, red, blue 50%)", "background:repeating-linear-gradient(45deg, red, blue 10px)", "background-size:50% auto", "background-position:right 3px bottom", "background-repeat:space", "background-clip:content-box", "background-attachment:fixed", "outline:2px solid", "outline-offset:3px", "box-decoration-break:clone", "image-rendering:pixelated", "image-resolution:2dppx", "object-fit:cover", "object-position:10% 20%", "border-image:url(x.png) 3", "box-shadow:1px 1px",
 	"page:named", "page:other", "size:100px 100px", "marks:crop", "bleed:5px", "appearance:none", "anchor:attr(id)", "link:attr(href)", "lang:'fr'", "--x:5px", "--y:var(--x)", "margin:var(--x)", "width:var(--y, 10px)", "width:calc(10px + 5%)", "margin-left:var(--undefined)", "--z:var(--z)", "color:var(--z)",
 }
 
@@ -170,6 +171,10 @@ var styleRules = []string{
 	"@media print{.a{color:red}}", "@media screen{.a{display:none}}", "@font-face{font-family:f1;src:url(missing.ttf)}", "@font-face{font-family:f2;src:local(Ahem)}", "@counter-style cs1{system:cyclic;symbols:'a' 'b'}", "ol{list-style-type:cs1}", "@counter-style cs2{system:additive;additive-symbols:5 v, 1 i;fallback:cs2}", "ul{list-style-type:cs2}",
 	"@import url(data:text/css,p%7Bcolor%3Ared%7D);", "@supports (display:grid){p{color:green}}", "@unknown x{y:z}", ":root{--x:3px;--y:var(--x)}", "div{margin:var(--y)}", "span{--loop:var(--loop);width:var(--loop)}", ".a .b > .c + p ~ span{color:red}", ":is(.a, .b):not(.c){color:red}", "li:nth-child(2n+1){color:red}", "div{ & p{color:red} .a{color:blue} }",
 	"span{footnote-display:block;float:footnote}", "::footnote-call{color:red}", "::footnote-marker{content:counter(footnote) ') '}", ".b{position:running(hdr)}", "p{orphans:3;widows:3}", "p{hyphens:auto}", "div:empty{display:none}", "img{width:20px;height:20px}", "input{appearance:auto}", "p:first-child::first-letter{color:red}",
+	// text cut by a line limit, with author ellipses of one and of several bytes per character
+	"p{max-lines:1;block-ellipsis:'……';width:3em}", "div{line-clamp:2 ' (続きを読む)';width:60px}", "p{continue:discard;max-height:1.5em;block-ellipsis:'→→→ more'}", "p{max-lines:2;block-ellipsis:'[...]';font:20px/1 Ahem;width:4em}", "li{line-clamp:1}",
+	// page-based counters mixed with counters of the flow (some never declared) in generated content
+	"p::before{content:counter(chapter) '.' counter(page) ' '}", "div::after{content:counter(page) '/' counter(pages) ' ' counter(c) counter(x) counter(y)}", "li::before{content:counters(item, '.') ' p' counter(page)}",
 	"table{width:100%}", "td{width:50%}", "th{vertical-align:bottom}", "tr{break-inside:avoid}", "thead{display:table-header-group}", "div{columns:2}", "p{column-span:all}", ".a{display:flex}", ".a>*{flex:1}", ".b{display:grid;grid-template-columns:1fr 1fr}",
 }
 
